@@ -145,6 +145,20 @@ func init() {
 		Weight int
 	}{"longtable", 3})
 
+	// longholes: see genLongHoles
+	kinds["longholes"] = &kindFn{gen: genLongHoles, run: runCore}
+	propKinds["C06"] = append(propKinds["C06"], struct {
+		Kind   string
+		Weight int
+	}{"longholes", 1})
+
+	// waitholes: see genWaitHoles
+	kinds["waitholes"] = &kindFn{gen: genWaitHoles, run: runCore}
+	propKinds["C05"] = append(propKinds["C05"], struct {
+		Kind   string
+		Weight int
+	}{"waitholes", 1})
+
 	// queuemigrate: see genQueueMigrate
 	kinds["queuemigrate"] = &kindFn{gen: genQueueMigrate, run: runCore}
 	propKinds["C04"] = append(propKinds["C04"], struct {
